@@ -1253,6 +1253,39 @@ Proof.
     first [apply Un | apply Id; reflexivity].
 Qed.
 
+(** the wake-up step: the queue loses its first 32 requests, nobody goes on the list of the
+    clients that went away, and only connections whose request was handled can have left the
+    Blocked state *)
+Lemma process_wakeups_misc now s b :
+  b_dead (snd (process_wakeups now s b)) = b_dead b /\
+  b_wake (snd (process_wakeups now s b)) = skipn 32 (b_wake b) /\
+  forall c2, zlookup c2 (b_blk (snd (process_wakeups now s b))) = None ->
+             zlookup c2 (b_blk b) = None \/ In c2 (map u_conn (firstn 32 (b_wake b))).
+Proof.
+  unfold process_wakeups.
+  assert (F : forall l sb, b_dead (snd (fold_left (wake_step now) l sb)) = b_dead (snd sb) /\
+             b_wake (snd (fold_left (wake_step now) l sb)) = b_wake (snd sb) /\
+             forall c2, zlookup c2 (b_blk (snd (fold_left (wake_step now) l sb))) = None ->
+                        zlookup c2 (b_blk (snd sb)) = None \/ In c2 (map u_conn l)).
+  { induction l as [|u l IH]; intros sb; cbn [fold_left map]; [split; [reflexivity|split; [reflexivity|intros c2 Hn; left; exact Hn]]|].
+    destruct (IH (wake_step now sb u)) as (I1 & I2 & I3).
+    assert (W : b_dead (snd (wake_step now sb u)) = b_dead (snd sb) /\ b_wake (snd (wake_step now sb u)) = b_wake (snd sb) /\
+                forall c2, zlookup c2 (b_blk (snd (wake_step now sb u))) = None -> zlookup c2 (b_blk (snd sb)) = None \/ c2 = u_conn u).
+    { unfold wake_step. destruct (b_crashed (snd sb)); [split; [reflexivity|split; [reflexivity|intros c2 Hn; left; exact Hn]]|].
+      destruct (wake_client_misc now (fst sb) (snd sb) u) as (M1 & M2). split; [exact M1|]. split; [apply wake_client_wake|].
+      intros c2 Hn. apply M2 in Hn. destruct Hn as [Hn|[Hn _]]; [left; exact Hn|right; exact Hn]. }
+    destruct W as (W1 & W2 & W3). split; [congruence|]. split; [congruence|].
+    intros c2 Hn. destruct (I3 c2 Hn) as [G|G]; [destruct (W3 c2 G) as [G2|G2]; [left; exact G2|right; left; congruence]|right; right; exact G]. }
+  destruct (F (firstn 32 (b_wake b)) (s, with_wake b (skipn 32 (b_wake b)))) as (F1 & F2 & F3).
+  cbn [snd with_wake b_dead b_wake b_blk] in F1, F2, F3. split; [exact F1|]. split; [exact F2|exact F3].
+Qed.
+Lemma drop_fold_reg : forall l b rk w, In w (reg_get (b_reg (fold_left drop_conn l b)) rk) -> In w (reg_get (b_reg b) rk).
+Proof.
+  induction l as [|c l IH]; intros b rk w H; cbn [fold_left] in H; [exact H|].
+  apply IH in H. cbn [drop_conn with_in with_blk with_reg b_reg] in H. rewrite reg_get_unregister_all in H.
+  eapply in_filter_sub; exact H.
+Qed.
+
 Theorem inv_step st e : inv st -> ok st e = true -> inv (step st e).
 Proof.
   destruct st as [s b]. intros HI Hok. unfold inv, gone_ok in *. cbn [fst snd] in HI. cbn [step].
